@@ -196,6 +196,11 @@ def main(argv=None):
     ap.add_argument('--inline', action='store_true', help='run shards in this process (debugging)')
     args = ap.parse_args(argv)
     prop = args.prop.upper()
+    if argv is None and os.environ.get('PYTHONHASHSEED') != '0':
+        # pharmpy has set-iteration-order dependent behaviour in places: the parent (regress replays, known
+        # finding confirmation, shrinking, --replay) must see the same string hashing as the workers
+        env = dict(os.environ, PYTHONHASHSEED='0')
+        os.execve(sys.executable, [sys.executable, '-m', 'pv.run'] + sys.argv[1:], env)
     os.environ.setdefault('PYTHONHASHSEED', '0')
     try:
         base_seed = int(os.environ.get('VERIF_SEED', '1') or '1')
